@@ -5,18 +5,19 @@
 (* configuration under a read schedule, capacity and EOF pauses (or the    *)
 (* async iterator under a poll schedule): the sequences of results are     *)
 (* equal item by item - values, offsets and the first error with all its   *)
-(* fields.  When end-of-stream closing is off, `none` results returned at  *)
-(* a pause are not part of the sequence.                                    *)
+(* fields.  `none` results returned at a pause of the source (bytes still  *)
+(* outstanding) are not part of the sequence.                               *)
 (***************************************************************************)
 EXTENDS ReaderObs
 
-\* results up to and including the first error / final none; pauses (none before the end) dropped
+\* results up to and including the first error / final none.  A None returned while the source still held undelivered
+\* bytes (a temporary end-of-file; recorded as pause = TRUE) is not part of the sequence; any other None is.
+IsPause(e) == e.res = "none" /\ "pause" \in DOMAIN e /\ e.pause
 RECURSIVE Canon(_, _, _)
 Canon(evs, i, acc) ==
   IF i > Len(evs) THEN acc
   ELSE IF evs[i].res = "item" THEN Canon(evs, i + 1, Append(acc, evs[i]))
-  ELSE IF evs[i].res = "none" THEN
-       (IF \E j \in (i + 1)..Len(evs) : evs[j].res # "none" THEN Canon(evs, i + 1, acc) ELSE Append(acc, evs[i]))
+  ELSE IF IsPause(evs[i]) THEN Canon(evs, i + 1, acc)
   ELSE Append(acc, evs[i])
 \* the stream adapter exposes no offsets: items are compared by kind, id and value only
 ResSameNoOff(a, b) == a.res = b.res /\ (a.res = "item" => KidSame(a, b)) /\ (a.res = "err" => ErrSame(a, b))
